@@ -289,6 +289,11 @@ class Check:
                     raise FrameworkError("worker exited 0 without finishing its scenarios")
                 if rc == 3:
                     raise FrameworkError("worker reported a harness error: " + err[-1500:])
+                if rc == 2 and "panic:" in err:
+                    # an unrecovered Go panic: library calls are guarded, so look at the innermost frame
+                    fr = re.search(r"goroutine \d+ \[running\]:\n(?:.*\n)?\t(\S+\.go):\d+", err)
+                    if fr and "/harness/cmd/worker/" in fr.group(1):
+                        raise FrameworkError("the worker itself panicked (harness defect, not a verdict): " + err[-1200:])
                 victim = remaining[0][0] if cur is None else cur
                 kind = "timeout" if to else ("exit" if rc > 0 else "signal")
                 deaths[victim] = {"kind": kind, "code": rc, "stderr": err[-2000:], "inflight": inflight}
